@@ -303,7 +303,7 @@ func genParse(r *hx.Rand, tier string) []ParseIn {
 	add := func(p int, d []byte, note string) { all = append(all, ParseIn{Parser: p, Data: hx.B(d), Note: note}) }
 	opt := func(p int, d []byte, note string) { pool = append(pool, ParseIn{Parser: p, Data: hx.B(d), Note: note}) }
 
-	// corpus: the confirmed witnesses first
+	// corpus: the witnesses of the repaired defects first
 	w1 := make([]byte, 20)
 	w1[0] = 0x45
 	add(pIPv4, w1, "corpus:ipv4 total length 0")
@@ -499,6 +499,7 @@ type HistObs struct {
 	Rets    []int64  `json:"rets"`     // inject: per processed frame 0 nil, 1 error, 2 panic
 	Events  []UEvent `json:"events"`   // category "udp" events, sorted
 	Count   int      `json:"count"`    // occupied state-table slots at the end (-1 unknown)
+	Tx      int      `json:"tx"`       // inject, no flood: frames queued for transmission (-1 not observed)
 	SpanMs  int64    `json:"span_ms"`
 	Times   []int64  `json:"times"` // arrival offsets (ms) of the listed frames
 	Stderr  string   `json:"stderr,omitempty"`
@@ -622,7 +623,10 @@ func runInject(in HistIn) HistObs {
 	ctx, cancel := context.WithCancel(context.Background())
 	defer cancel()
 	v.StartKnockDetector(ctx)
-	ob := HistObs{FatalAt: -1, Count: -1}
+	ob := HistObs{FatalAt: -1, Count: -1, Tx: -1}
+	if in.Rep == 0 {
+		ob.Tx = 0
+	}
 	start := time.Now()
 	idx := 0
 	one := func(f []byte) bool {
@@ -643,7 +647,9 @@ func runInject(in HistIn) HistObs {
 			ob.Rets = append(ob.Rets, ret)
 		}
 		idx++
-		v.DrainTx()
+		if n := len(v.DrainTx()); in.Rep == 0 {
+			ob.Tx += n
+		}
 		return ret != 2
 	}
 	alive := true
@@ -703,7 +709,7 @@ func childMain(path string) {
 		fmt.Fprintln(os.Stderr, "child: start: ", err)
 		os.Exit(3)
 	}
-	ob := HistObs{FatalAt: -1, Count: -1}
+	ob := HistObs{FatalAt: -1, Count: -1, Tx: -1}
 	start := time.Now()
 	write := func(f []byte) {
 		for {
@@ -783,10 +789,10 @@ func runChild(in HistIn, scratch string, id int) (HistObs, string) {
 		return ob, ""
 	}
 	if ctx.Err() != nil {
-		return HistObs{FatalAt: -1, Count: -1}, "child process hung (no result within 300 s)"
+		return HistObs{FatalAt: -1, Count: -1, Tx: -1}, "child process hung (no result within 300 s)"
 	}
 	stderr := se.String()
-	ob := HistObs{FatalAt: -1, Count: -1, SpanMs: time.Since(start).Milliseconds()}
+	ob := HistObs{FatalAt: -1, Count: -1, Tx: -1, SpanMs: time.Since(start).Milliseconds()}
 	if ee, ok := err.(*exec.ExitError); ok && ee.ExitCode() == 3 {
 		hx.Fatal("child could not set up: %s", stderr)
 	}
@@ -849,7 +855,6 @@ type histGen struct {
 	r       *hx.Rand
 	synned  [][3]int // (peer index, sport, dport) of SYNs sent so far
 	peers   [][4]byte
-	hostile bool // may use frames of the known defect classes
 }
 
 func (g *histGen) benign() []byte {
@@ -933,6 +938,8 @@ func (g *histGen) benign() []byte {
 	}
 }
 
+// bad: frames of the three malformed-frame classes that used to terminate the listener
+// (repaired by a545d57 and eb7aa9c); they must now be dropped like any other frame.
 func (g *histGen) bad() ([]byte, string) {
 	r := g.r
 	src := g.peers[r.Intn(len(g.peers))]
@@ -990,7 +997,7 @@ func genHist(r *hx.Rand, id int, mode string) HistIn {
 	return in
 }
 
-// corpus histories: one per confirmed defect class, smallest form
+// corpus histories: the smallest form of every formerly fatal class (regression corpus)
 func corpusHists(mode string) []HistIn {
 	allArp := [][4]byte{peerArp, gwOK}
 	mk := func(id int, note string, arp [][4]byte, routes []RouteIn, frames ...[]byte) HistIn {
@@ -1075,9 +1082,9 @@ func coqHist(id int, in HistIn, ob HistObs) string {
 	if in.Mode == "loop" {
 		mode = 1
 	}
-	return fmt.Sprintf("mkH %s %s %s %s %s\n      %s %s %s %s %s %s %s", hx.CoqN(uint64(id)), hx.CoqZ(int64(mode)), cfg, hx.CoqZ(int64(in.Rep)), hx.CoqZ(ob.SpanMs),
+	return fmt.Sprintf("mkH %s %s %s %s %s\n      %s %s %s %s %s %s %s %s", hx.CoqN(uint64(id)), hx.CoqZ(int64(mode)), cfg, hx.CoqZ(int64(in.Rep)), hx.CoqZ(ob.SpanMs),
 		hx.CoqList(frames, "(Z * bytes)"), coqEv(in.Probe),
-		hx.CoqZ(int64(ob.Fatal)), hx.CoqZ(int64(ob.FatalAt)), coqZs(ob.Rets), hx.CoqList(evs, "uevent"), hx.CoqZ(int64(ob.Count)))
+		hx.CoqZ(int64(ob.Fatal)), hx.CoqZ(int64(ob.FatalAt)), coqZs(ob.Rets), hx.CoqList(evs, "uevent"), hx.CoqZ(int64(ob.Count)), hx.CoqZ(int64(ob.Tx)))
 }
 
 // doARP must stay unreachable from configuration: the model ignores ARP frames.
